@@ -50,6 +50,7 @@ class Engine:
         self.obligations = []
         self.unmodelled = []
         self.dead_after_call = []
+        self.loop_body_seen = {}
         self.assumptions = set()
         self.cur_key = None
         self.exc_sink = []
